@@ -252,6 +252,7 @@ impl Engine for C13 {
             min_len: 0,
             dup_pct: 20,
             tab_desc_pct: 0,
+            utf8_id_pct: 0,
             dup_id_pct: 0,
         };
         let mut records = g.gen(rng);
@@ -283,6 +284,23 @@ impl Engine for C13 {
             };
             let pos = rng.usize(0, records[i].seq.len());
             records[i].seq.insert_str(pos, &ins);
+        }
+        // white space is one more ambiguous byte for the core: strings as they come out
+        // of a file (line end kept, leading blanks, a blank line in the middle, non-ASCII
+        // white space) must give what the core gives for the very same bytes
+        if mode != "cgr_batch" && rng.chance(1, 5) && !records.is_empty() {
+            let i = rng.usize(0, records.len() - 1);
+            for _ in 0..rng.usize(1, 2) {
+                let ws = *rng.pick(&["\n", "\r\n", " ", "\t", "  ", "\u{a0}", "\u{2003}", "\n\n"]);
+                let n = records[i].seq.chars().count();
+                let at = match rng.below(3) {
+                    0 => 0,
+                    1 => n,
+                    _ => rng.usize(0, n),
+                };
+                let byte_at = records[i].seq.char_indices().nth(at).map(|x| x.0).unwrap_or(records[i].seq.len());
+                records[i].seq.insert_str(byte_at, ws);
+            }
         }
         // a bad nucleotide somewhere in a CGR batch must raise ValueError
         if mode == "cgr_batch" && rng.chance(1, 4) && !records.is_empty() {
